@@ -276,7 +276,12 @@ func ruleA5(c *Ctx, id string) {
 				if !ok {
 					continue
 				}
-				cal := call.Call.StaticCallee()
+				// (a commit reached through a method value, a method expression or an unexported interface with
+				// one implementation is a commit)
+				cal := staticCallee(call)
+				if cal == nil {
+					cal = terminatorThunkCallee(c, call)
+				}
 				if cal == nil || V.Terminators[cal] != "commit" {
 					continue
 				}
